@@ -1171,10 +1171,15 @@ fn d_invocation(m: &(String, Vec<String>)) -> String {
 /// exception rule; `exc_first`: exception line before the injection lines. The page is
 /// sub.example.com; injection rules are written for example.com.
 fn check_d(injections: &[usize], exception: Option<&str>, exc_host: &str, exc_first: bool, l: &mut Local) {
+    check_d_at("example.com", injections, exception, exc_host, exc_first, l)
+}
+
+/// `inj_host`: the location of the injection rules (all of D_INJ_HOSTS cover the page).
+fn check_d_at(inj_host: &str, injections: &[usize], exception: Option<&str>, exc_host: &str, exc_first: bool, l: &mut Local) {
     l.evaluations += 1;
     l.states += 1;
     l.transitions += 1;
-    let mut rules: Vec<String> = injections.iter().map(|b| format!("example.com##+js({})", BODIES[*b])).collect();
+    let mut rules: Vec<String> = injections.iter().map(|b| format!("{}##+js({})", inj_host, BODIES[*b])).collect();
     if let Some(x) = exception {
         let r = format!("{}#@#+js({})", exc_host, x);
         if exc_first {
@@ -1183,7 +1188,7 @@ fn check_d(injections: &[usize], exception: Option<&str>, exc_host: &str, exc_fi
             rules.push(r);
         }
     }
-    let case = json!({"part":"d","injections":injections,"exception":exception,"exc_host":exc_host,"exc_first":exc_first,"rules":rules});
+    let case = json!({"part":"d","inj_host":inj_host,"injections":injections,"exception":exception,"exc_host":exc_host,"exc_first":exc_first,"rules":rules});
     let size = injections.len() as u64 * 100 + exception.map(|x| x.len()).unwrap_or(0) as u64 + exc_first as u64 + exc_host.len() as u64;
     let refs: Vec<&str> = rules.iter().map(|s| s.as_str()).collect();
     let out = match cosmetic_script(&[(&refs[..], 0)], d_resources(), "https://sub.example.com/") {
@@ -1200,7 +1205,7 @@ fn check_d(injections: &[usize], exception: Option<&str>, exc_host: &str, exc_fi
             return;
         }
     };
-    let applies = exc_host == "example.com" || exc_host == "sub.example.com";
+    let applies = ["example.com", "sub.example.com", "example.*", "sub.example.*"].contains(&exc_host);
     // lower and upper bound on the multiset of invocations
     let mut must: Vec<String> = vec![];
     let mut may: Vec<String> = vec![];
@@ -1288,6 +1293,12 @@ fn check_d(injections: &[usize], exception: Option<&str>, exc_host: &str, exc_fi
 }
 
 const D_EXC_HOSTS: [&str; 3] = ["example.com", "sub.example.com", "other.com"];
+/// second sweep: every location that covers the page sub.example.com (site, exact host, entity
+/// forms) for the injection x every such location, an unrelated host and an unrelated entity for
+/// the exception: an exception written for a less specific or a more specific location than the
+/// injection removes it all the same
+const D_INJ_HOSTS: [&str; 4] = ["example.com", "sub.example.com", "example.*", "sub.example.*"];
+const D_EXC_HOSTS2: [&str; 6] = ["example.com", "sub.example.com", "example.*", "sub.example.*", "other.com", "other.*"];
 
 // ---------------------------------------------------------------------------------------------
 // replay and driver
@@ -1327,7 +1338,7 @@ fn replay(case: &Value, l: &mut Local) {
         "c" => check_c_inner(case["inner"].as_str().unwrap_or("fs"), l),
         "d" => {
             let inj: Vec<usize> = case["injections"].as_array().map(|a| a.iter().map(|x| x.as_u64().unwrap_or(0) as usize % BODIES.len()).collect()).unwrap_or_default();
-            check_d(&inj, case["exception"].as_str(), case["exc_host"].as_str().unwrap_or("example.com"), case["exc_first"].as_bool().unwrap_or(false), l)
+            check_d_at(case["inj_host"].as_str().unwrap_or("example.com"), &inj, case["exception"].as_str(), case["exc_host"].as_str().unwrap_or("example.com"), case["exc_first"].as_bool().unwrap_or(false), l)
         }
         _ => {}
     }
@@ -1402,6 +1413,20 @@ fn check(ctx: &Ctx) -> i32 {
         }
         check_d(&[b1], Some(BODIES[b2]), D_EXC_HOSTS[h], first, l)
     });
+    // injection location x exception location, on a 6-body sub-alphabet (identical, other
+    // arguments, other scriptlet, blanket)
+    let sub: [usize; 6] = [0, 2, 3, 8, 13, 14];
+    ctx.bound("d_location_sweep", json!({"injection_locations": D_INJ_HOSTS, "exception_locations": D_EXC_HOSTS2, "bodies": sub.iter().map(|b| BODIES[*b]).collect::<Vec<_>>()}));
+    let (ni, ne, ns) = (D_INJ_HOSTS.len() as u64, D_EXC_HOSTS2.len() as u64, sub.len() as u64);
+    ctx.par_range("d-locations", ni * ne * ns * (ns + 1) * 2, 16, |i, l| {
+        let ih = D_INJ_HOSTS[(i % ni) as usize];
+        let eh = D_EXC_HOSTS2[((i / ni) % ne) as usize];
+        let b1 = sub[((i / ni / ne) % ns) as usize];
+        let x = ((i / ni / ne / ns) % (ns + 1)) as usize;
+        let first = i / ni / ne / ns / (ns + 1) == 1;
+        let exc = if x < sub.len() { BODIES[sub[x]] } else { "" };
+        check_d_at(ih, &[b1], Some(exc), eh, first, l);
+    });
     // every body injected; one exception / blanket / none
     let all: Vec<usize> = (0..BODIES.len()).collect();
     ctx.par_range("d-all-bodies", (nb + 2) * 3 * 2, 1, |i, l| {
@@ -1457,7 +1482,7 @@ fn check(ctx: &Ctx) -> i32 {
 
     ctx.finish(
         "model_checking",
-        "(a) all 256x256 (resource mask, list mask) pairs, directly and through FilterSet->Engine->url_cosmetic_resources in 3 shapes, plus two lists with the same rule and different masks; all 256 masks x 13 resource kinds as redirect (direct by name/alias and through $redirect rules); (b) all 2^9 edge sets on {s1,s2,f} x optional edge to a missing name per node x both dependency listing orders x node permissions {0,1,2}^3 x s2 function/template style, each with every injection list of <=k elements of a 10-element alphabet in EVERY order through get_scriptlet_resources; (c) every argument text of length <=n over 13 symbols x 8 spellings x 3 positions through a function-style scriptlet in an engine; (d) 20x20 (injection, exception) body pairs x 3 exception hosts x 2 line orders, plus all bodies with one/blanket/no exception. non-trivial = (a) resource needs a bit, (b) a permissioned resource is reachable from an injected scriptlet, (c) an argument holds a character other than a/z, (d) an applicable exception is present. states = engines / resource stores built, transitions = queries, traces_validated = results compared with the reference",
+        "(a) all 256x256 (resource mask, list mask) pairs, directly and through FilterSet->Engine->url_cosmetic_resources in 3 shapes, plus two lists with the same rule and different masks; all 256 masks x 13 resource kinds as redirect (direct by name/alias and through $redirect rules); (b) all 2^9 edge sets on {s1,s2,f} x optional edge to a missing name per node x both dependency listing orders x node permissions {0,1,2}^3 x s2 function/template style, each with every injection list of <=k elements of a 10-element alphabet in EVERY order through get_scriptlet_resources; (c) every argument text of length <=n over 13 symbols x 8 spellings x 3 positions through a function-style scriptlet in an engine; (d) 20x20 (injection, exception) body pairs x 3 exception hosts x 2 line orders, 4 injection locations x 6 exception locations (site, exact host, entity forms, unrelated) x 6x7 bodies x 2 line orders, plus all bodies with one/blanket/no exception. non-trivial = (a) resource needs a bit, (b) a permissioned resource is reachable from an injected scriptlet, (c) an argument holds a character other than a/z, (d) an applicable exception is present. states = engines / resource stores built, transitions = queries, traces_validated = results compared with the reference",
         &[
             "emitted argument literals are read as JSON string literals (RFC 8259); raw U+2028 inside a literal is legal there (and in JavaScript since ES2019)",
             "the +js grammar is pinned only as far as: comma separated, backslash-comma = literal comma, optional \"…\" '…' `…` quoting with backslash-quote = literal quote, blanks trimmed, everything else literal; Unspecified: unbalanced quote, text or trailing blanks after a closing quote, runs of >=2 backslashes before a separator, non-blank whitespace (LF, U+2028) at an argument edge, trailing empty argument, a single {…} argument",
